@@ -156,7 +156,7 @@ def check_c08(files, root, repo, version):
         cb.root = root
         r = Report(cb, GithubRepository(*repo) if repo else None)
         if version is not None:
-            r.version = version
+            r.version = None if version == "<none>" else version      # "<none>": a report that carries no version
         pretty = ReportWriter(r).to_json()
         compact = ReportWriter(r, pretty_print=False).to_json()
     except Exception as e:  # noqa
@@ -448,6 +448,10 @@ def main():
                 cases.append(([("d/" + (s or "e") + ".py", "Python", mk_measurements(rnd, 2, [s, "g"]))], "/r/" + s, (s, "n", "b" + s), None))
                 cases.append(([("x.py", "Python", mk_measurements(rnd, 1, [s]))], "/root", None, None))
                 cases.append(([("x.py", "Python", [])], "/root", ("o", s, None), "0.0.1"))
+            cases.append(([("x.py", "Python", mk_measurements(rnd, 2))], "/root", None, "<none>"))
+            cases.append(([], "/root", ("o", "n", ""), "<none>"))
+            for weird_root in ("/r/", "/r//s", "./rel", "/a/./b", "", "rel/../x", "C:\\x\\y", "/r/ "):
+                cases.append(([("x.py", "Python", [])], weird_root, ("o", "n", rnd.choice(["", " ", "main", None])), rnd.choice([None, "<none>"])))
             for _ in range(60 if tier == "quick" else 600):
                 n = rnd.randint(0, 3)
                 files = []
@@ -459,7 +463,7 @@ def main():
                     used.add(p)
                     files.append((p, rnd.choice(LANGS), mk_measurements(rnd, rnd.randint(0, 3), AWKWARD + ["f"])))
                 repo = None if rnd.random() < .5 else (rnd.choice(pools), rnd.choice(pools), rnd.choice(pools + [None]))
-                cases.append((files, "/r/" + rnd.choice(pools), repo, rnd.choice([None, None, "9.9.9"])))
+                cases.append((files, "/r/" + rnd.choice(pools), repo, rnd.choice([None, None, "9.9.9", "<none>"])))
             # measurement lists that are not in source order must round-trip unchanged as well
             for _ in range(10):
                 ms = mk_measurements(rnd, 4, ["f", "g"])
